@@ -2,6 +2,7 @@ package c20
 
 import (
 	"fmt"
+	"strings"
 	"testing"
 
 	"pgregory.net/rapid"
@@ -63,7 +64,10 @@ var (
 		c.At = []int{rapid.IntRange(0, 1000).Draw(rt, "step")}
 		return c
 	}, Run: runCrashExit}
-	settings = h.Prop[SCase]{Name: "settings", Gen: genSettings, Run: runSettings}
+	// files larger than the read buffer
+	restartLong = h.Prop[Case]{Name: "restart-long", Gen: genLongOps, Run: runRestartLong}
+	bufferGrid  = h.Prop[Case]{Name: "buffer-grid", Run: runRestartLong}
+	settings    = h.Prop[SCase]{Name: "settings", Gen: genSettings, Run: runSettings}
 	// enumerations
 	clearGrid = h.Prop[Case]{Name: "clear-grid", Run: runCrash}
 	limitGrid = h.Prop[Case]{Name: "limit-grid", Run: runCrash}
@@ -110,6 +114,8 @@ func TestC20(t *testing.T) {
 	h.RunProp(t, limitGrid, 0)
 	h.RunProp(t, restart, n(600, 2000))
 	h.RunProp(t, restartCtl, n(150, 600))
+	h.RunProp(t, restartLong, n(60, 300))
+	h.RunProp(t, bufferGrid, 0)
 	h.RunProp(t, crash, n(50, 180))
 	h.RunProp(t, crashExit, n(15, 30))
 	h.RunProp(t, settings, n(16, 50))
@@ -150,6 +156,28 @@ func TestC20(t *testing.T) {
 							return
 						}
 					}
+				}
+			}
+		}
+	})
+	// the end of the 4096 byte read buffer at every offset inside a form: a first form of 10+d bytes shifts everything
+	// that follows by d, then three-line forms with non-ASCII text take the file over one (thorough: two) buffer ends,
+	// with a restart after every form; the same for the stash
+	h.Enumerate(t, bufferGrid, func(yield func(Case) bool) {
+		maxD, forms := 72, 50
+		if h.Thorough() {
+			maxD, forms = 130, 95
+		}
+		for _, kind := range []string{"add", "sadd"} {
+			for d := 0; d < maxD; d++ {
+				c := Case{Limit: 1000}
+				first := "(" + strings.Repeat("x", 10+d) + ")"
+				c.Ops = append(c.Ops, Op{K: kind, F: []string{first}})
+				for i := 0; i < forms; i++ {
+					c.Ops = append(c.Ops, Op{K: kind, F: []string{fmt.Sprintf("(defun f%d (x)", i), "  ;; λ日本語 ñandú Ω≈ç", fmt.Sprintf("  (list x %d \"é%d\"))", i*7, i)}})
+				}
+				if !yield(c) {
+					return
 				}
 			}
 		}
